@@ -17,7 +17,7 @@ Fixpoint frames_fuel (fuel : nat) (bs : bytes) : list packet * tail :=
       match ('(sz, r1) <- get_u 4 bs ;; '(ty, r2) <- get_u 4 r1 ;; '(tm, r3) <- need 4 r2 ;; Ok (sz, ty, tm, r3)) with
       | Err _ => ([], HeaderCut)
       | Ok (sz, ty, tm, r3) =>
-        let '(pl, r4) := read_upto (N.to_nat sz) r3 in
+        let '(pl, r4) := read_uptoN sz r3 in
         let '(rest, t) := frames_fuel f r4 in
         ({| pk_type := ty; pk_time := tm; pk_payload := pl |} :: rest, t)
       end
@@ -26,7 +26,7 @@ Fixpoint frames_fuel (fuel : nat) (bs : bytes) : list packet * tail :=
 Definition frames (bs : bytes) := frames_fuel (S (length bs)) bs.
 
 Definition binstream (bs : bytes) : result (bytes * bytes) :=
-  '(n, r) <- get_u 4 bs ;; Ok (read_upto (N.to_nat n) r).
+  '(n, r) <- get_u 4 bs ;; Ok (read_uptoN n r).
 
 (* ---------- world ---------- *)
 Inductive pclass :=
@@ -304,7 +304,8 @@ Definition step_class (w : world) (c : pclass) (pl : bytes) : world * option err
           match g with
           | Wot => (set_player (put w e) id, None)
           | _ =>
-            match model_of "Avatar" with
+            (* an existing entity is reused as it is: the lists are those of ITS type *)
+            match model_of (en_type e) with
             | Err er => (w, Some er)
             | Ok m =>
               match fill set_base (e_base m) e val with
@@ -327,7 +328,7 @@ Definition step_class (w : world) (c : pclass) (pl : bytes) : world * option err
           match (match zassoc_get id (w_entities w) with Some e => Ok (e, true) | None => e <- new_entity id "Avatar" ;; Ok (e, false) end) with
           | Err e => (w, Some e)
           | Ok (e, existed) =>
-            match model_of "Avatar" with
+            match model_of (en_type e) with
             | Err er => (w, Some er)
             | Ok m =>
               match fill set_client (e_internal m) e val with
@@ -383,33 +384,43 @@ Definition step_class (w : world) (c : pclass) (pl : bytes) : world * option err
         e <- lookup_entity w id ;;
         Ok (put w (set_vol (set_vol (set_vol (set_vol e "position" (Some pos)) "yaw" (Some yaw)) "pitch" (Some pitch)) "roll" (Some roll))))
   | PlayerPosition =>
-      match ('(e1, r1) <- get_s 4 pl ;; '(e2, r2) <- get_s 4 r1 ;; '(_, r3) <- need 12 r2 ;; '(_, _) <- need 12 r3 ;; Ok (e1, e2)) with
+      match ('(e1, r1) <- get_s 4 pl ;; '(e2, r2) <- get_s 4 r1 ;; '(pos, r3) <- need 12 r2 ;;
+             '(yaw, r4) <- need 4 r3 ;; '(pitch, r5) <- need 4 r4 ;; '(roll, _) <- need 4 r5 ;; Ok (e1, e2, pos, yaw, pitch, roll)) with
       | Err e => (w, Some e)
-      | Ok (e1, e2) =>
-        (* `packet.entityId2 != (0,)` is always true: the first branch is always taken; KeyError is swallowed *)
-        match zassoc_get e2 (w_entities w), zassoc_get e1 (w_entities w) with
-        | Some m, Some s =>
-          let fix copy (ks : list string) (s : entity) : entity * option error :=
-            match ks with
-            | [] => (s, None)
-            | k :: r => match assoc_get k (en_vol m) with
-                        | Some v => copy r (set_vol s k v)
-                        | None => (s, Some ERuntime)
-                        end
-            end in
-          let '(s', er) := copy ["position"; "yaw"; "pitch"; "roll"]%string s in (put w s', er)
-        | _, _ => (w, None)
-        end
+      | Ok (e1, e2, pos, yaw, pitch, roll) =>
+        if negb (Z.eqb e2 0) then
+          (* a second entity is named: the first one takes over its current pose; KeyError (unknown id) is swallowed,
+             a missing volatile on the second entity raises RuntimeError after the earlier ones were copied *)
+          match zassoc_get e2 (w_entities w), zassoc_get e1 (w_entities w) with
+          | Some m, Some s =>
+            let fix copy (ks : list string) (s : entity) : entity * option error :=
+              match ks with
+              | [] => (s, None)
+              | k :: r => match assoc_get k (en_vol m) with
+                          | Some v => copy r (set_vol s k v)
+                          | None => (s, Some ERuntime)
+                          end
+              end in
+            let '(s', er) := copy ["position"; "yaw"; "pitch"; "roll"]%string s in (put w s', er)
+          | _, _ => (w, None)
+          end
+        else if negb (Z.eqb e1 0) then
+          (* no second entity: a regular update of the first one from the packet *)
+          match zassoc_get e1 (w_entities w) with
+          | Some e => (put w (set_vol (set_vol (set_vol (set_vol e "position" (Some pos)) "yaw" (Some yaw)) "pitch" (Some pitch)) "roll" (Some roll)), None)
+          | None => (w, None)
+          end
+        else (w, None)
       end
   | EntityMethod =>
       atomic w (
         '(id, r1) <- get_u 4 pl ;; '(mid, r2) <- get_u 4 r1 ;; '(data, _) <- binstream r2 ;;
         e <- lookup_entity w (Z.of_N id) ;; m <- model_of (en_type e) ;;
-        match nth_error (e_methods m) (N.to_nat mid) with
+        match nthN (e_methods m) mid with
         | None => Err EIndex
         | Some mt =>
           let key := key_of (en_type e) (m_name mt) in
-          match (match assoc_get (en_type e) (s_mcounts St) with Some l => nth (N.to_nat mid) l O | None => O end) with
+          match (match assoc_get (en_type e) (s_mcounts St) with Some l => match nthN l mid with Some c => c | None => O end | None => O end) with
           | O => Ok w                                  (* unsubscribed: not decoded *)
           | n =>
             '(vs, _) <- decode_seq (Z.to_nat (m_hdr mt)) (map snd (m_args mt)) data ;;
@@ -421,7 +432,7 @@ Definition step_class (w : world) (c : pclass) (pl : bytes) : world * option err
       atomic w (
         '(id, r1) <- get_u 4 pl ;; '(pid, r2) <- get_u 4 r1 ;; '(val, _) <- binstream r2 ;;
         e <- lookup_entity w (Z.of_N id) ;; m <- model_of (en_type e) ;;
-        match nth_error (e_client m) (N.to_nat pid) with
+        match nthN (e_client m) pid with
         | None => Err EIndex
         | Some p => '(v, _) <- decode 1 (p_type p) val ;; Ok (log (put w (set_client e (p_name p) v)) (prop_calls e (p_name p) v))
         end)
@@ -437,7 +448,7 @@ Definition step_class (w : world) (c : pclass) (pl : bytes) : world * option err
       atomic w (name <- decode_map g pl ;; Ok {| w_entities := w_entities w; w_player := w_player w; w_map := Some name; w_trace := w_trace w |})
   | Version =>
       atomic w ('(n, r) <- get_s 4 pl ;; if utf8_valid (fst (read_z n r)) then Ok w else Err EUnicode)
-  | BattleStats => (w, None)
+  | BattleStats => atomic w ('(_, _) <- get_s 4 pl ;; Ok w)   (* the JSON body is an oracle: assumed well-formed *)
   end.
 
 Fixpoint table_get (k : N) (t : list (N * pclass)) : option pclass :=
@@ -451,7 +462,7 @@ Fixpoint table_get (k : N) (t : list (N * pclass)) : option pclass :=
 Definition method_payload_rest (w : world) (pl : bytes) : result (string * option nat) :=
   '(id, r1) <- get_u 4 pl ;; '(mid, r2) <- get_u 4 r1 ;; '(data, _) <- binstream r2 ;;
   e <- lookup_entity w (Z.of_N id) ;; m <- model_of (en_type e) ;;
-  match nth_error (e_methods m) (N.to_nat mid) with
+  match nthN (e_methods m) mid with
   | None => Err EIndex
   | Some mt =>
     let key := key_of (en_type e) (m_name mt) in
@@ -463,7 +474,7 @@ Definition method_payload_rest (w : world) (pl : bytes) : result (string * optio
 Definition prop_payload_rest (w : world) (pl : bytes) : result (string * option nat) :=
   '(id, r1) <- get_u 4 pl ;; '(pid, r2) <- get_u 4 r1 ;; '(val, _) <- binstream r2 ;;
   e <- lookup_entity w (Z.of_N id) ;; m <- model_of (en_type e) ;;
-  match nth_error (e_client m) (N.to_nat pid) with
+  match nthN (e_client m) pid with
   | None => Err EIndex
   | Some p =>
     let key := key_of (en_type e) (p_name p) in
@@ -506,3 +517,27 @@ Fixpoint play_strict (w : world) (ps : list packet) : world * option error :=
   end.
 End Step.
 
+(* ---------- registration (Entity.subscribe_method_call / _property_change / _nested_property_change) ----------
+   The table maps "<entity>_<member>" to the number of callbacks.  The code tests the BARE member name against the
+   table keys (`if method_name not in table: table[key] = []`) and then appends: since keys carry the entity prefix the
+   test almost never finds the name, so a second registration of a key replaces the first (known finding C07-a).
+   Mirrored literally, including the KeyError when the bare name happens to be a key but the hashed key is not. *)
+Definition subscribe (tbl : list (string * nat)) (ent name : string) : result (list (string * nat)) :=
+  let key := (ent ++ "_" ++ name)%string in
+  let tbl1 := if existsb (String.eqb name) (map fst tbl) then tbl else assoc_set key O tbl in
+  match assoc_get key tbl1 with
+  | Some n => Ok (assoc_set key (S n) tbl1)
+  | None => Err EKey
+  end.
+Fixpoint subscribe_all (tbl : list (string * nat)) (regs : list (string * string)) : result (list (string * nat)) :=
+  match regs with
+  | [] => Ok tbl
+  | (e, n) :: r => t <- subscribe tbl e n ;; subscribe_all t r
+  end.
+(* what the property asks for: every registration counts *)
+Fixpoint subscribe_spec (tbl : list (string * nat)) (regs : list (string * string)) : list (string * nat) :=
+  match regs with
+  | [] => tbl
+  | (e, n) :: r => let key := (e ++ "_" ++ n)%string in
+                   subscribe_spec (assoc_set key (S (match assoc_get key tbl with Some c => c | None => O end)) tbl) r
+  end.
